@@ -109,6 +109,15 @@ func c18cut(r *vlib.Rng, text string) [][]byte {
 func genC18(seed uint64, thorough bool) c18case {
 	r := vlib.NewRng(seed)
 	cs := c18case{seed: seed}
+	if seed == 1 || seed == 2 {
+		// the F10 witness (DESIGN §6): contains=hello, not-contains=bad must fire on `hello world`
+		// (seed 1) and must not fire on `hello bad world` (seed 2)
+		cs.kind = "witness"
+		cs.cbs = []c18cb{{contains: "hello", notContains: "bad", insensitive: true, reset: true, complete: true, viaOptions: true, name: "hello-not-bad"}}
+		cs.emissions = [][][]byte{{[]byte([]string{"", "hello world", "hello bad world"}[seed])}}
+		cs.ops = []c18op{{input: "go", timeout: c18Short}}
+		return cs
+	}
 	if r.Chance(1, 22) {
 		return genC18Delayed(r, cs)
 	}
@@ -774,9 +783,9 @@ func runC18(c *ctx) {
 	c18Constructor(c)
 	rxDiff(c, []string{"Channel.promptPattern"}, c.n(60, 600))
 	n := c.n(1500, 100000)
-	cases := make([]c18case, n)
-	for i := range cases {
-		cases[i] = genC18(c.rng.U64(), c.thorough())
+	cases := []c18case{genC18(1, false), genC18(2, false)}
+	for i := 0; i < n; i++ {
+		cases = append(cases, genC18(c.rng.U64(), c.thorough()))
 	}
 	c18check(c, cases)
 }
